@@ -72,6 +72,42 @@ def r1_names(ctx):
                           'shifted locals': shifted, 'exit': [show_cond(c) for c in rets[0].conds]}
                 ok = (init_i == C(0) and i_next == ('bin', 'Add', ('lv', idx[2][1], cnt), C(1)) and len(shifted) == 1
                       and before.get(shifted[0]) == ('p', 1))
+    if not ok and len(rets) == 1 and not backs:
+        # the same count written with adapters: ALGEBRAIC[(0..64).take_while(|s| !(b >> s).is_empty()).count() - 1]; the predicate term is
+        # evaluated for every single-bit board and every shift: the length of its true prefix must be bit index + 1
+        v = rets[0].value
+        if v[0] == 'idx' and v[1] == ('named', SQ + 'tables::ALGEBRAIC') and v[2][0] == 'bin' and v[2][1] == 'Sub' and v[2][3] == C(1):
+            cnt = v[2][2]
+            tw = cnt[2][0] if cnt[0] == 'call' and cnt[1].endswith('Iterator::count') and len(cnt[2]) == 1 else None
+            if tw is not None and tw[0] == 'call' and tw[1].endswith('Iterator::take_while') and tw[2][0][0] == 'agg' and str(tw[2][0][2]).endswith('Range') \
+                    and tw[2][1][0] == 'agg' and tw[2][1][1] == 'closure':
+                rf = dict(tw[2][0][4])
+                snaps = [e[2] for e in rets[0].events if e[0] == 'closure' and e[1] == tw[2][1][2]]
+                co = [o for o in Engine(facts).run(tw[2][1][2]) if o.kind != 'abort']
+                ctx.touch(tw[2][1][2])
+                if rf.get('start') == C(0) and rf.get('end') == C(64) and snaps and snaps[0] == (('p', 1),) or (snaps and show(snaps[0][0]) in ('arg1', 'assert_square@0(arg1)')):
+                    if len(co) == 1 and co[0].kind == 'return' and not co[0].conds:
+                        from sa.evalterm import ev, Unevaluable
+                        pred = subst_upvars(co[0].value, snaps[0])
+
+                        def bev(t_, env):
+                            if t_[0] == 'un' and t_[1] == 'Not':
+                                return int(not bev(t_[2], env))
+                            return int(bool(ev(t_, env)))
+                        good = True
+                        try:
+                            for k in range(64):
+                                n_true = 0
+                                for s_ in range(64):
+                                    if bev(pred, {('fld', snaps[0][0], '0'): 1 << k, snaps[0][0]: 1 << k, ('der', ('p', 2)): s_, ('p', 2): s_}):
+                                        n_true += 1
+                                    else:
+                                        break
+                                good = good and n_true == k + 1
+                        except Unevaluable:
+                            good = False
+                        ok = good
+                        detail = {'form': 'take_while(..).count() - 1', 'predicate': show(pred)}
     ctx.ob(rule, name, 'returns ALGEBRAIC[number of right shifts until empty - 1] (= bit index)', ok, found=detail,
            expected='i = 0; while b != 0 { b >>= 1; i += 1 }; ALGEBRAIC[i - 1]')
     # from_rank_file
